@@ -498,11 +498,19 @@ where
 
         self.pool_size = new_pool_size;
         if is_growing {
-            for _ in 0..new_pool_size {
-                if self.queue.peek().is_none() {
+            // Hand over everything that can be routed now. With worker-queueing routers that is
+            // the whole backlog (e.g. jobs accepted while the pool had no workers): if part of
+            // it stayed behind, later jobs of the same key would be queued on the worker
+            // directly and overtake it.
+            loop {
+                let backlog = self.queue.len();
+                if backlog == 0 {
                     break;
                 }
                 self.try_route_next_active_job(None)?;
+                if self.queue.len() >= backlog {
+                    break;
+                }
             }
         }
         Ok(())
